@@ -596,3 +596,36 @@ pub proof fn lemma_fwd_has_push(tf: Seq<String>, x: String, k: String)
         assert(tf.push(x)[tf.len() as int]@ == k@);
     }
 }
+
+/// C14 (cancel on exit): state `s` has an <invoke> whose document id is `d`
+pub open spec fn owns_invoke(f: &Fsm, s: u32, d: DocumentId) -> bool {
+    exists|j: int| 0 <= j < st(f, s).invoke.data@.len() && (#[trigger] st(f, s).invoke.data@[j]).doc_id == d
+}
+
+/// no child session in `m` was started by an <invoke> of state `s`
+pub open spec fn none_owned_by(f: &Fsm, m: Map<String, ScxmlSession>, s: u32) -> bool {
+    forall|k: String| m.contains_key(k) ==> !owns_invoke(f, s, (#[trigger] m[k]).invoke_doc_id)
+}
+
+/// `m1` is `m0` without the sessions started by an <invoke> of state `s` (nothing else is cancelled)
+pub open spec fn only_owned_removed(f: &Fsm, m0: Map<String, ScxmlSession>, m1: Map<String, ScxmlSession>, s: u32) -> bool {
+    forall|k: String| m0.contains_key(k) && !owns_invoke(f, s, (#[trigger] m0[k]).invoke_doc_id) ==> m1.contains_key(k)
+}
+
+pub proof fn lemma_none_owned_sub(f: &Fsm, m0: Map<String, ScxmlSession>, m1: Map<String, ScxmlSession>, s: u32)
+    requires
+        none_owned_by(f, m0, s),
+        m1.submap_of(m0),
+    ensures
+        none_owned_by(f, m1, s),
+{
+    assert forall|k: String| m1.contains_key(k) implies !owns_invoke(f, s, (#[trigger] m1[k]).invoke_doc_id) by {
+        assert(m0.contains_key(k));
+        assert(m0[k] == m1[k]);
+    }
+}
+
+/// the list of (invoke id, session id) pairs collected for cancelling names key `k`
+pub open spec fn has_id(l: Seq<(String, u32)>, k: String) -> bool {
+    exists|m: int| 0 <= m < l.len() && (#[trigger] l[m]).0 == k
+}
